@@ -384,7 +384,14 @@ fn budget_read<R: Read>(r: &mut R) -> (&'static str, usize) {
                     return ("output-cap", total);
                 }
             }
-            Err(_) => return ("err", total),
+            Err(_) => {
+                // callers retry: a reader that has reported an error must keep returning (anything) on later calls
+                for _ in 0..2 {
+                    let _ = r.read(&mut buf);
+                }
+                let _ = r.read(&mut []);
+                return ("err", total);
+            }
         }
     }
 }
